@@ -76,6 +76,15 @@ func simNextRand() uint64 {
     s = must_replace(s, "starving = starving || runtime_nanotime()-waitStartTime > starvationThresholdNs",
         "starving = starving || (false && runtime_nanotime()-waitStartTime > starvationThresholdNs)", "mutex starvation")
     q = os.path.join(OUT, "mutex.go"); open(q, "w").write(s); replace[p] = q
+    # --- runtime/proc.go: sysmon asks a goroutine that has been running for 10 ms of
+    # wall-clock time to yield at its next function call. That is a schedule decision
+    # taken by a real clock: switch it off (the harness runs on one P; every goroutine
+    # blocks at a seam or a channel soon enough).
+    p = os.path.join(GOROOT, "src/runtime/proc.go")
+    s = open(p).read()
+    s = must_replace(s, "const forcePreemptNS = 10 * 1000 * 1000 // 10ms",
+        "const forcePreemptNS = 1000 * 1000 * 1000 * 1000 * 1000 // (sim) effectively never", "forcePreemptNS")
+    q = os.path.join(OUT, "proc.go"); open(q, "w").write(s); replace[p] = q
     # --- extra replacements produced by simgen (json map file -> file)
     extra = os.path.join(OUT, "extra.json")
     if os.path.exists(extra):
